@@ -5,7 +5,7 @@ import asyncio
 import json
 from typing import Any, Dict, List
 
-from vf.ref import classify, strict_eq
+from vf.ref import classify, strict_eq, tagged
 from vf.vloop import run_virtual, HangDetected
 
 ID = "C08"
@@ -297,7 +297,94 @@ def expected_codes(case) -> Any:
     return ("anything",)
 
 
+def concurrent_tier(ctx):
+    """Several messages in flight on one handler at once (a transport dispatching without waiting for the previous
+    answer): handlers that await before returning / raising; every request still gets exactly one answer with ITS id
+    and no notification gets any."""
+    import itertools as _it
+    rng = ctx.sub_rng("concurrent")
+    slow = {"custom/slow_ok": ("ok", 0.02), "custom/slow_raise": ("raise", 0.03), "custom/slower_raise": ("raise", 0.06),
+            "custom/slow_ok2": ("ok", 0.05)}
+    n_rounds = 30 if ctx.tier == "quick" else 400
+    for k in range(n_rounds):
+        if not ctx.mine():
+            continue
+        L = rng.randint(2, 6)
+        msgs = []
+        for i in range(L):
+            m = rng.choice(list(slow) + ["custom/ok", "custom/raise", "nope/unknown", "ping"])
+            has_id = rng.random() < 0.7
+            msgs.append({"method": m, "has_id": has_id, "id": rng.choice([0, i + 1, f"c{i}", -7, ""]) if has_id else None,
+                         "start": rng.choice([0.0, 0.0, 0.01, 0.025])})
+        ids = [m["id"] for m in msgs if m["has_id"]]
+        if len(set(map(repr, ids))) != len(ids):
+            continue
+        case = {"concurrent": msgs, "k": k}
+
+        async def main():
+            srv = build_server()
+            ph = srv.protocol_handler
+
+            def mk(kind, delay):
+                async def h(message, session_id):
+                    await asyncio.sleep(delay)
+                    if kind == "raise":
+                        raise RuntimeError("slow handler failed")
+                    return ph.create_response(getattr(message, "id", None), {"slow": True}), None
+                return h
+            for name, (kind, delay) in slow.items():
+                ph.register_method(name, mk(kind, delay))
+            outs = [None] * len(msgs)
+
+            async def one(i, m):
+                await asyncio.sleep(m["start"])
+                wire = {"jsonrpc": "2.0", "method": m["method"]}
+                if m["has_id"]:
+                    wire["id"] = m["id"]
+                from chuk_mcp.protocol.messages.json_rpc_message import parse_message
+                try:
+                    outs[i] = ("ok", await ph.handle_message(parse_message(wire)))
+                except BaseException as e:  # noqa
+                    if isinstance(e, (KeyboardInterrupt, SystemExit, asyncio.CancelledError)):
+                        raise
+                    outs[i] = ("raised", e)
+            await asyncio.gather(*(one(i, m) for i, m in enumerate(msgs)))
+            return outs
+        try:
+            outs, _ = run_virtual(main, max_iterations=200_000)
+        except HangDetected as e:
+            ctx.violation("hang", f"concurrent dispatch: {e}", case)
+            continue
+        ctx.count("dispatched", len(msgs))
+        ctx.count("concurrent_rounds")
+        for m, (st, r) in zip(msgs, outs):
+            if st == "raised":
+                ctx.violation("dispatch_raised_on_request" if m["has_id"] else "dispatch_raised_on_notification",
+                              f"concurrent dispatch: handle_message raised {r!r}", case)
+                continue
+            resp = r[0] if isinstance(r, tuple) else r
+            if not m["has_id"]:
+                if resp is not None:
+                    ctx.violation("response_to_notification", f"concurrent dispatch: notification {m['method']} answered with {resp!r}", case)
+                continue
+            if resp is None:
+                ctx.violation("no_response_to_request", f"concurrent dispatch: request id {m['id']!r} ({m['method']}) got no response", case)
+                continue
+            rid = getattr(resp, "id", None)
+            if tagged(rid) != tagged(m["id"]):
+                ctx.violation("response_id_differs", f"concurrent dispatch: request id {m['id']!r} ({m['method']}) was answered with "
+                              f"id {rid!r}", case)
+            want_err = slow.get(m["method"], (None,))[0] == "raise" or m["method"] in ("custom/raise", "nope/unknown")
+            has_err = getattr(resp, "error", None) is not None
+            if want_err != has_err:
+                ctx.violation("expected_error_got_result" if want_err else "expected_result_got_error",
+                              f"concurrent dispatch: {m['method']} id {m['id']!r} answered {resp!r}", case)
+        ctx.record(case, shape=[o[0] for o in outs], nontrivial=True, cls="concurrent",
+                   sample={"messages": msgs, "outcomes": [o[0] for o in outs]})
+
+
 def run(ctx):
+    concurrent_tier(ctx)
     cases = [c for c in gen_cases(ctx) if ctx.mine()]
 
     async def batch(cs):
@@ -399,6 +486,10 @@ def run(ctx):
 
 
 def replay(ctx, case):
+    if "concurrent" in case:
+        ctx.notes.append("concurrent rounds are regenerated from the seed")
+        concurrent_tier(ctx)
+        return
     import vf.props.c08 as me
     og = me.gen_cases
     me.gen_cases = lambda c: iter([case, {"method": "ping", "id": 1, "has_id": True, "params": "__missing__", "rep": "parse"}])
